@@ -139,6 +139,10 @@ def record_wrappers(tier, work):
             vals = fmt_values(3, (-2, -1, 0, 1, 2)) + [fp.Float(c=45, exp=-3), fp.Float(s=True, c=77, exp=-5)]
             # exponents the narrow contexts cannot hold (5 and -5 have three digits): the parts are exact whatever the context
             vals += [fp.Float(c=3, exp=4), fp.Float(s=True, c=5, exp=3), fp.Float(c=5, exp=-7), fp.Float(c=7, exp=8)]
+            if ctx is fp.REAL:
+                # exact rationals no Float holds (values of the real context)
+                from fractions import Fraction
+                vals = vals + [Fraction(1, 3), Fraction(-22, 7), Fraction(5, 6)]
             vecs = [[x, n] for x in vals for n in (-3, -1, 0, 1)] if law == 'split' else [[x] for x in vals]
             ins = []
             for args in vecs:
